@@ -464,6 +464,46 @@ pub fn run(args: &Args) -> ! {
             json!({"kind":"single-vs-reference","glob":g,"opts":oi,"path":esc(p),"impl":a,"reference":b}),
         );
     }
+    // brace family: balanced, unbalanced, empty and escaped alternates — is the
+    // glob accepted at all, and what does it match (paths with the
+    // metacharacters themselves)
+    {
+        let specials = [
+            "a}", "}a", "}", "{a", "a{", "{", "{a,b", "a,b", ",", "{}", "{a}", "a{}b", "{,}", "{a,b}}", "{{a,b}", "{{a,b},b}", "\\{a", "a\\}", "[{]a", "a[}]", "{a\\,b}", "{a,b}{a,b}", "}{", "a}b{",
+        ];
+        let spaths: Vec<&[u8]> = vec![b"a", b"b", b"", b"a}", b"}a", b"}", b"{a", b"a{", b"{", b"a,b", b",", b"{}", b"{a}", b"ab", b"aa", b"bb", b"ba", b"a,", b"{a,b}", b"a}b{", b"}{", b"a\\"];
+        for g in specials {
+            let g = g.replace("\\\\", "\\");
+            for oi in 0..nopts {
+                let o = Opts::from_index(oi);
+                let imp = o.builder(&g).build();
+                let rf = ref_parse(&g, o, false);
+                acc_total.single_evals += 1;
+                match (&imp, &rf) {
+                    (Err(_), Err(_)) => acc_total.ref_errors_agree += 1,
+                    (Ok(gl), Ok(rf)) => {
+                        let m = gl.compile_matcher();
+                        for p in spaths.iter() {
+                            let (a, b) = (m.is_match(os(p)), rf.is_match(p));
+                            acc_total.single_evals += 1;
+                            if a != b {
+                                verdict.discrepancy(
+                                    None,
+                                    &format!("single:{}:{}:{}", g, oi, esc(p)),
+                                    json!({"kind":"single-vs-reference","glob":g,"opts":oi,"path":esc(p),"impl":a,"reference":b}),
+                                );
+                            }
+                        }
+                    }
+                    _ => verdict.discrepancy(
+                        None,
+                        &format!("build:{}:{}", g, oi),
+                        json!({"kind":"glob-accepted-vs-reference","glob":g,"opts":oi,"impl_ok":imp.is_ok(),"ref_ok":rf.is_ok()}),
+                    ),
+                }
+            }
+        }
+    }
     eprintln!("[c12] layer 2 done at {:.1}s", ev.elapsed());
 
     // ---- layer 1: set vs members --------------------------------------------
@@ -707,7 +747,7 @@ pub fn run(args: &Args) -> ! {
     ev.set(
         "rule",
         format!(
-            "layer 2: every token string of length <= {} over {:?} x 16 GlobBuilder option sets, matched against every path of length <= {} over {:?} (plus the same shapes with 0xFF for '-'), compared with an independent backtracking reference written from the documented syntax; layer 1: {} glob sets (every glob alone, one set of all globs for each of the option sets {:?}, one set mixing all 16 option sets, all ordered pairs{} over a 30-glob pool with several representatives per strategy, all ordered pairs over a second 30-glob pool of prefix / suffix / extension / basename families whose literals nest inside one another; after every answer an empty set must clear the reused buffer) x the same paths, GlobSet::matches_candidate / matches_into / is_match compared with the answers of the member globs' own matchers. Non-trivial = the glob (or at least one member) matches the path; every (glob, options, path) and (set, path) is distinct by construction.",
+            "layer 2: every token string of length <= {} over {:?} x 16 GlobBuilder option sets, matched against every path of length <= {} over {:?} (plus the same shapes with 0xFF for '-'), compared with an independent backtracking reference written from the documented syntax (plus 24 globs with balanced, unbalanced, empty, nested and escaped braces x the option sets: accepted or rejected as documented, and matched against paths containing the metacharacters); layer 1: {} glob sets (every glob alone, one set of all globs for each of the option sets {:?}, one set mixing all 16 option sets, all ordered pairs{} over a 30-glob pool with several representatives per strategy, all ordered pairs over a second 30-glob pool of prefix / suffix / extension / basename families whose literals nest inside one another; after every answer an empty set must clear the reused buffer) x the same paths, GlobSet::matches_candidate / matches_into / is_match compared with the answers of the member globs' own matchers. Non-trivial = the glob (or at least one member) matches the path; every (glob, options, path) and (set, path) is distinct by construction.",
             glen, GLOB_TOKENS, plen, std::str::from_utf8(PATH_BYTES).unwrap(), nsets, big_opts,
             if tier == Tier::Thorough { " and all triples" } else { "" },
         ),
